@@ -45,8 +45,10 @@ def _run(args, cwd, timeout, env_extra=None, heap='4g'):
     env = dict(os.environ)
     if env_extra:
         env.update(env_extra)
-    cmd = ['java', '-Xmx' + heap, '-XX:+UseParallelGC', '-cp', _classpath(),
-           'tlc2.TLC'] + args
+    jtmp = os.path.join(cwd, 'jtmp')
+    os.makedirs(jtmp, exist_ok=True)
+    cmd = ['java', '-Xmx' + heap, '-XX:+UseParallelGC', '-Djava.io.tmpdir=' + jtmp,
+           '-cp', _classpath(), 'tlc2.TLC'] + args
     t0 = time.time()
     try:
         p = subprocess.run(cmd, cwd=cwd, env=env, stdout=subprocess.PIPE,
